@@ -12,7 +12,7 @@ use kurbo::{
 use std::f64::consts::{FRAC_PI_2, PI};
 
 pub fn prop() -> Prop {
-    Prop { id: "C10", corr, laws, extra, law_budget: (60, 1500) }
+    Prop { id: "C10", corr, laws, extra, law_budget: (250, 4000) }
 }
 
 const EPS: f64 = f64::EPSILON;
@@ -93,6 +93,20 @@ fn gen_r_tol(r: &mut Rng) -> (f64, f64) {
             let rad = gen_radius(r);
             (rad, (rad * log_uniform(r, 1e-12, 1e-6)).clamp(1e-9, 1.0)) // tolerance << radius
         }
+        3 => {
+            // at the switch between k-1 and k pieces per turn: (1.1163 * ratio)^(1/6) just below / above k
+            let k = r.range_i(1, 16) as f64;
+            let f = *r.pick(&[1.0 - 1e-9, 1.0 + 1e-9, 1.0 - 1e-4, 1.0 - 1e-12]);
+            let se = k.powi(6) / 1.1163 * f;
+            let rad = gen_radius(r);
+            let tol = rad / se;
+            if (1e-9..=1.0).contains(&tol) {
+                (rad, tol)
+            } else {
+                let tol = gen_tol(r);
+                ((tol * se).clamp(1e-3, 1e4), tol)
+            }
+        }
         _ => (gen_radius(r), gen_tol(r)),
     }
 }
@@ -161,14 +175,14 @@ fn arc_of(a: &[f64]) -> (Arc, f64) {
 
 fn gen_rr_args(r: &mut Rng) -> Vec<f64> {
     let p = gen_center(r);
-    let w = match r.below(6) {
+    let w = match r.below(12) {
         0 => 0.0,
-        1 => -gen_radius(r),
+        1 | 2 => -gen_radius(r),
         _ => gen_radius(r),
     };
-    let h = match r.below(6) {
-        0 => w,
-        1 => 0.0,
+    let h = match r.below(12) {
+        0 | 1 => w,
+        2 => 0.0,
         _ => gen_radius(r),
     };
     let m = w.abs().min(h.abs());
@@ -205,7 +219,7 @@ fn cs_of(a: &[f64]) -> (CircleSegment, f64) {
 }
 
 fn corr(r: &mut Rng, thorough: bool, o: &mut Out) {
-    let n = if thorough { 2500 } else { 110 };
+    let n = if thorough { 700 } else { 70 };
     // ---- circle
     for i in 0..n {
         let c = gen_center(r);
@@ -285,7 +299,10 @@ fn corr(r: &mut Rng, thorough: bool, o: &mut Out) {
         let (rx, ry, rot) = (gen_radius(r), if i % 7 == 0 { -gen_radius(r) } else { gen_radius(r) }, gen_rot(r));
         let e = Ellipse::new(c, (rx, ry), rot);
         let (radii, _) = e.radii_and_rotation();
-        if radii.x.is_finite() && radii.y.is_finite() && arc_generic(radii.x, radii.y, 2.0 * PI, tol) {
+        // Ellipse::new goes through sin/cos: for (nearly) equal radii the SVD angle is atan2 of rounding noise
+        // that differs between libm and the model's sin/cos, so that case is left to the laws
+        let circular = (rx.abs() - ry.abs()).abs() < 1e-3 * rx.abs().max(ry.abs());
+        if !circular && radii.x.is_finite() && radii.y.is_finite() && arc_generic(radii.x, radii.y, 2.0 * PI, tol) {
             let els: Vec<PathEl> = e.path_elements(tol).collect();
             o.case(5, "ellipse-new", vec![c.x, c.y, rx, ry, rot, tol], enc_els(&els), true, if ry < 0.0 { "neg-radius" } else { "pos" });
         }
@@ -625,7 +642,10 @@ fn check_arc_outline(name: &str, els: &[PathEl], c: Point, rx: f64, ry: f64, rot
     let rmax = rx.abs().max(ry.abs());
     let rmin = rx.abs().min(ry.abs());
     let mag = c.x.abs() + c.y.abs() + rmax;
-    let slack = 32.0 * EPS * mag * (1.0 + 0.05 * n as f64);
+    // normal displacement: a few units of rounding at the size of the data; along the curve the accumulated
+    // angle (angle0 += step, n times) adds up, which matters only for the closure check
+    let slack = 16.0 * EPS * mag;
+    let slack_closure = 32.0 * EPS * mag * (1.0 + 0.05 * n as f64);
     let (sr, cr) = rot.sin_cos();
     let local = |p: Point| -> (f64, f64) {
         let (dx, dy) = (p.x - c.x, p.y - c.y);
@@ -633,15 +653,13 @@ fn check_arc_outline(name: &str, els: &[PathEl], c: Point, rx: f64, ry: f64, rot
     };
     let ts = sample_ts();
     let mut angles = Vec::with_capacity(n * 25);
+    let mut worst = (0.0f64, 0usize, 0.0f64);
     for (k, (p0, e)) in ps.iter().enumerate() {
         for (j, p) in piece_points(*p0, e, &ts).iter().enumerate() {
             let (u, v) = local(*p);
             let (d, _, _) = dist_point_ellipse(rx, ry, u, v);
-            if d > tol * (1.0 + 1e-9) + slack {
-                return fail(
-                    &format!("{}:tolerance", name),
-                    format!("{}: piece {} of {} at t={} is {:e} from the ideal ellipse (ratio err/T = {})", desc, k, n, ts[j], d, d / tol),
-                );
+            if d > worst.0 {
+                worst = (d, k, ts[j]);
             }
         }
         for i in 0..=24 {
@@ -652,6 +670,12 @@ fn check_arc_outline(name: &str, els: &[PathEl], c: Point, rx: f64, ry: f64, rot
             let (u, v) = local(p);
             angles.push((v / ry).atan2(u / rx));
         }
+    }
+    if worst.0 > tol * (1.0 + 1e-9) + slack {
+        return fail(
+            &format!("{}:tolerance", name),
+            format!("{}: piece {} of {} at t={} is {:e} from the ideal ellipse (ratio err/T = {})", desc, worst.1, n, worst.2, worst.0, worst.0 / tol),
+        );
     }
     // the eccentric angle runs from start to start + sweep, once, never backwards
     let noise = 64.0 * EPS * (1.0 + mag / rmin) * (1.0 + n as f64);
@@ -677,7 +701,7 @@ fn check_arc_outline(name: &str, els: &[PathEl], c: Point, rx: f64, ry: f64, rot
             _ => unreachable!(),
         };
         let d = (start_pt.x - end_pt.x).hypot(start_pt.y - end_pt.y);
-        if d > slack {
+        if d > slack_closure {
             return fail(&format!("{}:closure", name), format!("{}: starts at {:?}, ends at {:?} ({:e} apart)", desc, start_pt, end_pt, d));
         }
     }
@@ -1085,4 +1109,33 @@ fn extra(_r: &mut Rng, thorough: bool, o: &mut Out) {
         }
     }
     o.notes.push(format!("circle n-sweep (n = 4..{}): largest radial error / tolerance = {:.6} at n = {}", nmax, worst.0, worst.1));
+    // arcs: the worst case for m pieces over a sweep s is n_err just below m * 2pi / |s|
+    let mmax = if thorough { 40 } else { 12 };
+    for s in [2.0 * PI, -2.0 * PI, FRAC_PI_2, -PI, 4.0 * PI, 1.0] {
+        for m in 1..=mmax {
+            let n_err = m as f64 * 2.0 * PI / f64::abs(s);
+            for f in [1.0 - 1e-9, 1.0 - 1e-5] {
+                let se = n_err.powi(6) / 1.1163 * f;
+                for rad in [1e-3, 1.0, 1e4] {
+                    let tol = rad / se;
+                    if !(1e-9..=1.0).contains(&tol) {
+                        continue;
+                    }
+                    for args in [vec![0.25, -3.5, rad, rad, 0.3, s, 0.7, tol], vec![10.0, 2.0, rad, rad * 0.999, -1.0, s, 0.0, tol]] {
+                        o.oracle_eval("extra:arc_n_sweep");
+                        if let Some((class, desc)) = law_arc(&args) {
+                            o.violation(&class, desc, format!("{{\"law\":\"arc\",\"args\":{}}}", crate::util::fmt_fs(&args)));
+                        }
+                    }
+                    if s == 2.0 * PI {
+                        let args = vec![0.25, -3.5, rad, rad * 0.99, 0.7, tol];
+                        o.oracle_eval("extra:ellipse_n_sweep");
+                        if let Some((class, desc)) = law_ellipse(&args) {
+                            o.violation(&class, desc, format!("{{\"law\":\"ellipse\",\"args\":{}}}", crate::util::fmt_fs(&args)));
+                        }
+                    }
+                }
+            }
+        }
+    }
 }
